@@ -163,7 +163,7 @@ func (le *lockEnv) paramInvokedUnder(callee *Func, i int) (map[string]bool, bool
 		// which function literally contains this call?
 		owner := callee
 		for _, l := range callee.AllLits() {
-			if l.Lit.Pos() <= call.Pos() && call.End() <= l.Lit.End() {
+			if encloses(l.Lit, call) {
 				owner = l
 			}
 		}
